@@ -93,6 +93,8 @@ def get_coinbase_txn(raw_block_hex):
     num_fields = len(block)
     if num_fields not in [19, 20]:
         raise ValueError("Block header must have 19 or 20 elements, got %d", num_fields)
+    if not isinstance(block[-1], bytes):
+        raise ValueError("Block header coinbase transaction must be a byte string")
     return block[-1].hex()
 
 
